@@ -1,0 +1,143 @@
+//go:build verif
+
+package index
+
+import (
+	"bytes"
+	"io"
+	"os"
+
+	"github.com/RoaringBitmap/roaring"
+	"github.com/blugelabs/bluge/index/lock"
+	segment "github.com/blugelabs/bluge_segment_api"
+)
+
+// Verification hooks (build tag "verif" only) for the snapshot codec and the
+// file-system directory. Add-only: nothing here is reachable without the tag.
+
+// VerifSeg is the part of a segmentSnapshot that the snapshot file records.
+type VerifSeg struct {
+	ID      uint64
+	Type    string
+	Version uint32
+	Deleted *roaring.Bitmap // nil = no deletions
+}
+
+// verifStubSegment answers Type/Version only; every other method is inert.
+type verifStubSegment struct {
+	typ string
+	ver uint32
+}
+
+func (s *verifStubSegment) Dictionary(string) (segment.Dictionary, error) { return nil, nil }
+func (s *verifStubSegment) VisitStoredFields(uint64, segment.StoredFieldVisitor) error {
+	return nil
+}
+func (s *verifStubSegment) Count() uint64 { return 0 }
+func (s *verifStubSegment) DocsMatchingTerms([]segment.Term) (*roaring.Bitmap, error) {
+	return roaring.NewBitmap(), nil
+}
+func (s *verifStubSegment) Fields() []string { return nil }
+func (s *verifStubSegment) CollectionStats(string) (segment.CollectionStats, error) {
+	return nil, nil
+}
+func (s *verifStubSegment) Size() int { return 0 }
+func (s *verifStubSegment) DocumentValueReader([]string) (segment.DocumentValueReader, error) {
+	return nil, nil
+}
+func (s *verifStubSegment) WriteTo(io.Writer, chan struct{}) (int64, error) { return 0, nil }
+func (s *verifStubSegment) Type() string                                   { return s.typ }
+func (s *verifStubSegment) Version() uint32                                { return s.ver }
+
+// VerifNewSnapshot builds a Snapshot value whose WriteTo output depends only
+// on the given segment ids, types, versions and deleted bitmaps.
+func VerifNewSnapshot(epoch uint64, segs []VerifSeg) *Snapshot {
+	rv := &Snapshot{epoch: epoch, refs: 1, creator: "verif"}
+	for _, s := range segs {
+		rv.segment = append(rv.segment, &segmentSnapshot{
+			id: s.ID,
+			segment: &segmentWrapper{
+				Segment:    &verifStubSegment{typ: s.Type, ver: s.Version},
+				refCounter: noOpRefCounter{},
+			},
+			deleted:        s.Deleted,
+			segmentType:    s.Type,
+			segmentVersion: s.Version,
+		})
+	}
+	return rv
+}
+
+// VerifSnapshotSegs reads back what a decoded (or constructed) Snapshot holds.
+func VerifSnapshotSegs(s *Snapshot) []VerifSeg {
+	rv := make([]VerifSeg, 0, len(s.segment))
+	for _, ss := range s.segment {
+		rv = append(rv, VerifSeg{ID: ss.id, Type: ss.segmentType, Version: ss.segmentVersion, Deleted: ss.deleted})
+	}
+	return rv
+}
+
+// verifSnapshotDir serves snapshots from the wrapped directory and answers
+// every segment load with empty data (the stub plugins ignore it).
+type verifSnapshotDir struct {
+	Directory
+}
+
+func (d verifSnapshotDir) Load(kind string, id uint64) (*segment.Data, io.Closer, error) {
+	if kind == ItemKindSegment {
+		return segment.NewDataBytes([]byte{}), nil, nil
+	}
+	return d.Directory.Load(kind, id)
+}
+
+// VerifLoadSnapshot runs the real (*Writer).loadSnapshot on the snapshot item
+// `epoch` of dir (decode, CRC comparison, close). Segment plugins for the
+// (type, version) pairs named by the file are registered as stubs first, so
+// that the result reflects the codec and checksum only.
+func VerifLoadSnapshot(dir Directory, epoch uint64, validateCRC bool) ([]VerifSeg, error) {
+	cfg := defaultConfig()
+	cfg.ValidateSnapshotCRC = validateCRC
+	// learn which plugins the file names (best effort; the real load follows)
+	if data, closer, err := dir.Load(ItemKindSnapshot, epoch); err == nil {
+		if data.Len() >= crcWidth {
+			if payload, err2 := data.Read(0, data.Len()-crcWidth); err2 == nil {
+				probe := &Snapshot{}
+				_, _ = probe.ReadFrom(bytes.NewReader(append([]byte(nil), payload...)))
+				for _, ss := range probe.segment {
+					typ, ver := ss.segmentType, ss.segmentVersion
+					cfg = cfg.WithSegmentPlugin(&SegmentPlugin{
+						Type:    typ,
+						Version: ver,
+						Load: func(*segment.Data) (segment.Segment, error) {
+							return &verifStubSegment{typ: typ, ver: ver}, nil
+						},
+					})
+				}
+			}
+		}
+		if closer != nil {
+			_ = closer.Close()
+		}
+	}
+	w := &Writer{config: cfg, directory: verifSnapshotDir{dir}}
+	snap, err := w.loadSnapshot(epoch)
+	if err != nil {
+		return nil, err
+	}
+	return VerifSnapshotSegs(snap), nil
+}
+
+// VerifCrcWidth exposes the trailer width.
+const VerifCrcWidth = crcWidth
+
+// VerifSetOpenExclusive replaces the function Persist/Remove/Lock use to open
+// a file exclusively (fault injection at open, Sync and Close).
+func VerifSetOpenExclusive(d *FileSystemDirectory,
+	f func(path string, flag int, perm os.FileMode) (lock.LockedFile, error)) {
+	d.openExclusive = f
+}
+
+// VerifFileName is the name Persist gives to an item.
+func VerifFileName(d *FileSystemDirectory, kind string, id uint64) string {
+	return d.fileName(kind, id)
+}
